@@ -167,6 +167,53 @@ class PolarsCheckDtype(_PlCore):
         return out
 
 
+class IsFloatDtype(Contract):
+    """is_float_dtype(frame, selector): true iff EVERY column the selector matches is a float column (check_nullable / set_default then
+    apply is_nan / is_not_nan to all of them: on a non-float column polars raises InvalidOperationError - C06).  Selections of 0-2 columns
+    over {Float32, Float64, Int64, String, Boolean} enumerated."""
+
+    target = "pandera.backends.polars.base:is_float_dtype"
+    check_frame = False
+    split = {"layout": list(range(1 + 5 + 25))}
+
+    @staticmethod
+    def _layouts():
+        import itertools
+
+        import polars as pl
+
+        kinds = [pl.Float32, pl.Float64, pl.Int64, pl.String, pl.Boolean]
+        return [()] + [(k,) for k in kinds] + list(itertools.product(kinds, repeat=2))
+
+    def setup(self, I):
+        import polars as pl
+        import pandera.api.polars.utils as PU
+        import pandera.backends.polars.base as PB
+
+        dtypes = list(self._layouts()[self.fixed.get("layout", 0)])
+        for mod in (PU, PB):
+            if hasattr(mod, "get_lazyframe_column_dtypes"):
+                I.models[id(mod.get_lazyframe_column_dtypes)] = lambda I_, lf: list(dtypes)
+        from pyvc.theories.opaque import OpaqueVal
+
+        I.models[id(pl.col)] = lambda I_, *a, **k: OpaqueVal("pl.col(selector)")
+
+    def make_args(self):
+        from pyvc.theories.opaque import OpaqueVal
+
+        return {"check_obj": OpaqueVal("lazyframe"), "selector": core.SAny(name="selector")}
+
+    def call_target(self, I, fn, a):
+        return I.call(fn, [a["check_obj"], a["selector"]], {})
+
+    def ensures(self, result, old, check_obj, selector):
+        import polars as pl
+
+        dtypes = self._layouts()[self.fixed.get("layout", 0)]
+        want = all(d in (pl.Float32, pl.Float64) for d in dtypes)
+        return {"float_iff_every_selected_column_is_float": (result is True) == want and isinstance(result, bool)}
+
+
 def _standin(which):
     def run(seed=0, tier="quick"):
         """run-time contract on the real polars ColumnBackend core check: verdict and row-aligned check_output against the spec above"""
@@ -223,4 +270,4 @@ def _standin(which):
 PolarsCheckNullable.bounded_standin = staticmethod(_standin("nullable"))
 PolarsCheckUnique.bounded_standin = staticmethod(_standin("unique"))
 
-CONTRACTS = [PolarsCheckNullable, PolarsCheckUnique, PolarsCheckDtype]
+CONTRACTS = [PolarsCheckNullable, PolarsCheckUnique, PolarsCheckDtype, IsFloatDtype]
